@@ -1,5 +1,387 @@
-import Aiortc.Model.Sctp.Endpoint
-/-! # C02 (placeholder while the theorems are being written) -/
+import Aiortc.Lemmas.C02.SctpRxInv
+/-!
+# C02 — data channel traffic always drains: no stall or deadlock after any fault history
+
+Model: `Model/Sctp/Outbound.lean` (`Tx`: `_send`, `_transmit`, `_receive_sack_chunk`, `_t3_expired`,
+`_maybe_abandon`, `_update_advanced_peer_ack_point`, flight size), `Model/Sctp/Inbound.lean` (`Rx`:
+`_mark_received`), `Model/Sctp/Endpoint.lean` (`sendSack`), tied to the real endpoints by the trace
+correspondence of `harness/props/C02.py`.
+
+What is proved here, for ALL inputs / histories (no enumeration):
+
+* (a) `flight_accounting` — in every sender state reachable by any sequence of sender operations,
+  `_flight_size` is exactly the sum of `_book_size` over the chunks of `_sent_queue` counted in flight, and no
+  queued chunk is counted; preserved by each of the six operations separately; `sentQ = [] → flight = 0`;
+  the saturating subtraction never truncates.
+* (b) `timer_armed` — in every reachable sender state: something outstanding ⇒ T3 armed or a `_transmit`
+  pending; FORWARD TSN waiting ⇒ `_transmit` pending; data queued ⇒ something outstanding or `_transmit` pending.
+* (c) `t3_progress` — T3 expiry then the queued `_transmit` sends the earliest outstanding chunk first and
+  re-arms T3 (`flight = 0 < cwnd = 1200`).
+* (d) `receiveSack_never_raises`, `no_crash_reachable`, `transmit_loop_fuel_suffices`.
+* (e) `sack_describes_misordered` — the gap blocks describe exactly the misordered set.
+* (f) `C02_drains` (full statement, a `def`), and `C02_drains_partial`: on the sender/receiver pair joined by a
+  lossless FIFO channel, the canonical fault-free continuation can only come to rest in a drained state, and
+  from every coherent state with an empty network one epoch (T3, `_transmit`, burst, first SACK) strictly
+  advances the cumulative ack within an explicit number of steps.
+-/
 namespace Aiortc.Props.C02
+open Aiortc.Sctp Aiortc.Gen
+
 theorem userdata_max_const : Aiortc.Gen.USERDATA_MAX_LENGTH = 1200 := by decide
+theorem sack_max_entries_const : Aiortc.Gen.SACK_MAX_ENTRIES = 296 := by decide
+/-- the initial congestion window of `Ep.init` is three MTUs, as in `RTCSctpTransport.__init__` -/
+theorem initial_cwnd_const : (Ep.init false 1 100).tx.cwnd = 3 * 1200 := by decide
+
+/-! ## (a) flight accounting -/
+
+/-- **`flight_accounting`**: for every initial sender and EVERY sequence of sender operations (`_send`;
+SACK = `_receive_sack_chunk` + flushed `_send`s + `_transmit`; T3 expiry; a queued `_transmit`; the two field
+updates the endpoint makes at INIT and at stream reset): `flight = Σ bookSize` over the chunks of `sentQ` with
+`inFlight`, chunks still in `outQ` are not in flight, and an abandoned chunk is neither in flight nor marked. -/
+theorem flight_accounting (t0 : Tx) (h0 : t0.Initial) (ops : List SOp) :
+    let t := (Snd.run { tx := t0 } ops).tx
+    t.flight = flightSum t.sentQ
+    ∧ (∀ c ∈ t.outQ, c.inFlight = false)
+    ∧ (∀ c ∈ t.sentQ, c.abandoned = true → c.inFlight = false ∧ c.retransmit = false) := by
+  have := (h0.inv.run ops).flight
+  exact ⟨this.flight, fun c hc => (this.outQ c hc).1, this.sentQ⟩
+
+/-- each operation preserves the invariant on its own (also the ones the endpoint only calls nested) -/
+theorem flight_accounting_enqueue {t : Tx} (h : FlightInv t) (sid ppid : Nat) (d : Bytes) (e m : Option Int) (o : Bool) :
+    FlightInv (t.enqueue sid ppid d e m o) := h.enqueue sid ppid d e m o
+theorem flight_accounting_transmit {t : Tx} (h : FlightInv t) : FlightInv t.transmit.1 := h.transmit
+theorem flight_accounting_receiveSack {t : Tx} (h : FlightInv t) (cum : Int) (gaps : List (Nat × Nat)) (now : Int)
+    (t' : Tx) (evs : List TxEv) (hr : t.receiveSack cum gaps now = .ok (some (t', evs))) : FlightInv t' :=
+  h.receiveSack cum gaps now t' evs hr
+theorem flight_accounting_t3Expired {t : Tx} (h : FlightInv t) (now : Int) : FlightInv (t.t3Expired now) :=
+  h.t3Expired now
+theorem flight_accounting_maybeAbandon {t : Tx} (h : FlightInv t) (pos : Nat) (now : Int) :
+    FlightInv (t.maybeAbandon pos now).2 := h.maybeAbandon pos now
+theorem flight_accounting_updateAdvAck {t : Tx} (h : FlightInv t) : FlightInv t.updateAdvAck := h.updateAdvAck
+
+/-- corollary: an empty sent queue means nothing is counted in flight (the pinned code could have
+`_flight_size ≥ cwnd` with an empty `_sent_queue`, and then never sent again) -/
+theorem flight_zero_of_empty (t0 : Tx) (h0 : t0.Initial) (ops : List SOp)
+    (he : (Snd.run { tx := t0 } ops).tx.sentQ = []) : (Snd.run { tx := t0 } ops).tx.flight = 0 := by
+  have := (h0.inv.run ops).flight.flight
+  rw [this, he]; rfl
+
+/-- **the saturating subtraction of `_flight_size_decrease` never truncates**: whenever a chunk of the sent queue
+is discounted while the counter is at least the sum (which holds at every call site, see `Bal` in
+`Lemmas/SctpFlight.lean`: every loop lemma is stated as "counter change = sum change"), the counter is at least
+the chunk's share. -/
+theorem decFlight_never_truncates (t : Tx) (h : FlightInv t) (c : SChunk) (hc : c ∈ t.sentQ) (hf : c.inFlight = true) :
+    c.bookSize ≤ t.flight ∧ (decFlight t.flight c).1 + c.bookSize = t.flight := by
+  have := decFlight_exact t.flight t.sentQ c hc (by rw [h.flight]; exact Nat.le_refl _)
+  have hw : c.w = c.bookSize := by simp [SChunk.w, hf]
+  rw [hw] at this
+  exact ⟨by omega, this⟩
+
+example : (Ep.init false 1 100).tx.Initial := ⟨rfl, rfl, rfl, rfl, by decide⟩
+
+/-- non-vacuity: a run with two messages, a T3 expiry, the retransmission and a SACK for the first chunk -/
+def demoMsg : SendArgs := { sid := 1, ppid := 53, data := [1, 2, 3], expiry := none, maxRtx := none, ordered := true }
+def demoRun : Snd := Snd.run { tx := (Ep.init false 1 100).tx } [.send demoMsg, .send demoMsg, .t3 0, .task, .sack 100 [] 0 []]
+example : demoRun.tx.sentQ.length = 1 ∧ demoRun.tx.flight = 3 ∧ demoRun.tx.t3 = true := by decide
+
+/-! ## (b) the retransmission timer -/
+
+/-- **`timer_armed`**: in every reachable sender state (operations composed as the endpoint composes them:
+`_receive_sack_chunk` is followed by `_transmit`, `_t3_expired` queues a `_transmit` task)
+* something outstanding ⇒ T3 is armed or a `_transmit` is pending,
+* a FORWARD TSN waiting to be sent ⇒ a `_transmit` is pending,
+* data queued in `_outbound_queue` ⇒ something is outstanding (hence T3) or a `_transmit` is pending. -/
+theorem timer_armed (t0 : Tx) (h0 : t0.Initial) (ops : List SOp) :
+    let s := Snd.run { tx := t0 } ops
+    (s.tx.sentQ ≠ [] → s.tx.t3 = true ∨ s.pending = true)
+    ∧ (s.tx.forwardTsn ≠ none → s.pending = true)
+    ∧ (s.tx.outQ ≠ [] → s.tx.sentQ ≠ [] ∨ s.pending = true) := by
+  have := h0.inv.run ops
+  refine ⟨this.armed, ?_, this.queued⟩
+  intro hne
+  apply this.fwd
+  cases h : (Snd.run { tx := t0 } ops).tx.forwardTsn with
+  | none => exact absurd h hne
+  | some _ => rfl
+
+/-- right after any `_transmit`: T3 is armed iff needed, nothing waits -/
+theorem after_transmit (t : Tx) (hf : FlightInv t) (hp : PreTx t) :
+    (t.transmit.1.sentQ ≠ [] → t.transmit.1.t3 = true) ∧ t.transmit.1.forwardTsn = none
+    ∧ (t.transmit.1.outQ ≠ [] → t.transmit.1.sentQ ≠ []) :=
+  ⟨(afterTx_transmit hf hp).armed, (afterTx_transmit hf hp).fwd, (afterTx_transmit hf hp).queued⟩
+
+example : demoRun.tx.sentQ ≠ [] ∧ demoRun.pending = false := by decide
+
+/-! ## (c) T3 expiry makes progress -/
+
+/-- **`t3_progress`**: in every reachable sender state, `_t3_expired` leaves `flight = 0 < cwnd = 1200`, T3
+stopped, and if a chunk `c` is then first in the sent queue it is not abandoned, it is marked for
+retransmission, and the `_transmit` that `_t3_expired` queues emits it before any other DATA chunk, (re)starts T3
+right after it and leaves T3 armed. -/
+theorem t3_progress (t0 : Tx) (h0 : t0.Initial) (ops : List SOp) (now : Int) (c : SChunk) (cs : List SChunk)
+    (hq : ((Snd.run { tx := t0 } ops).tx.t3Expired now).sentQ = c :: cs) :
+    let t1 := (Snd.run { tx := t0 } ops).tx.t3Expired now
+    t1.flight = 0 ∧ t1.cwnd = 1200 ∧ t1.t3 = false ∧ c.abandoned = false ∧ c.retransmit = true
+    ∧ t1.transmit.1.t3 = true
+    ∧ ∃ more, t1.transmit.2 = t1.fwd.2 ++ TxEv.data (rtxChunk c).toR :: t3Restart t1.fwd.1.t3 ++ more :=
+  t3_then_transmit _ (h0.inv.run ops).flight.winv now c cs hq
+
+/-- the retransmitted chunk is the same chunk (TSN, stream, payload) -/
+theorem rtxChunk_same (c : SChunk) : (rtxChunk c).toR = c.toR := rfl
+
+/-- a FORWARD TSN that is waiting goes out first with the next `_transmit`, which arms T3 -/
+theorem fwd_progress (t : Tx) (cum : Int) (streams : List (Nat × Int)) (h : t.forwardTsn = some (cum, streams)) :
+    t.transmit.1.t3 = true ∧ t.transmit.1.forwardTsn = none ∧ ∃ more, t.transmit.2 = TxEv.fwd cum streams :: more :=
+  fwd_then_transmit t cum streams h
+
+example : (((Snd.run { tx := (Ep.init false 1 100).tx } [.send demoMsg, .send demoMsg]).tx.t3Expired 0).sentQ.map (·.tsn))
+    = [100, 101] := by decide
+
+/-! ## (d) nothing raises, no loop hangs -/
+
+/-- **`_receive_sack_chunk` never raises**, in any sender state whose queued chunks are idle (every reachable one):
+the `IndexError` branch (`self._sent_queue[-1]` after `loss`) is unreachable because `loss` implies a non-empty
+sent queue; the model has no other failing branch. -/
+theorem receiveSack_never_raises (t : Tx) (ho : ∀ c ∈ t.outQ, c.inFlight = false ∧ c.retransmit = false ∧ c.abandoned = false)
+    (cum : Int) (gaps : List (Nat × Nat)) (now : Int) : ∃ r, t.receiveSack cum gaps now = .ok r :=
+  receiveSack_ok t cum gaps now ho
+
+theorem no_crash_reachable (t0 : Tx) (h0 : t0.Initial) (ops : List SOp) : (Snd.run { tx := t0 } ops).crashed = false :=
+  (h0.inv.run ops).ok
+
+/-- the `while self._outbound_queue and self._flight_size < cwnd` loop of `_transmit` ends because its condition
+fails, never because the model's fuel (`len(outbound_queue) + 1`) ran out. All other loops of the send path
+(`rtxLoop`, `ackLoop`, `htnaLoop`, `popAbandoned`, `abandonBack/Fwd/Unsent`, `strikeLoop`, `t3Mark`) are
+structural recursions over the queue (or over the length of its snapshot) in the model, i.e. Lean's
+termination checker has accepted them; none returns `Outcome.hang`. -/
+theorem transmit_loop_fuel_suffices (cwnd fl : Nat) (t3 : Bool) (outQ sent : List SChunk) (evs : List TxEv) :
+    (newLoop cwnd (outQ.length + 1) fl t3 outQ sent evs).2.2.1 = []
+    ∨ cwnd ≤ (newLoop cwnd (outQ.length + 1) fl t3 outQ sent evs).1 :=
+  newLoop_exit cwnd _ fl t3 outQ sent evs (Nat.lt_succ_self _)
+
+theorem receiveSack_never_hangs (t : Tx) (cum : Int) (gaps : List (Nat × Nat)) (now : Int) :
+    t.receiveSack cum gaps now ≠ .hang := by
+  rw [receiveSack_eq]
+  split
+  · intro h; cases h
+  · split <;> (intro h; first | cases h | skip)
+    rename_i k hk
+    unfold Tx.sackCwnd at hk
+    split at hk
+    · simp only at hk
+      split at hk
+      · split at hk <;> cases hk
+      · cases hk
+    · split at hk <;> cases hk
+
+/-! ## (e) SACK generation -/
+
+/-- **`sack_describes_misordered`**: the gap blocks `_send_sack` writes (`sackGapBlocks rx` is literally the `gaps`
+of `sendSack` in the endpoint model) cover an offset `k` iff `k` is the offset of a TSN in `_sack_misordered` —
+for misordered TSNs in range, at offsets 1 … 65535, needing at most 296 blocks. -/
+theorem sack_describes_misordered (rx : Rx)
+    (hmis : ∀ t ∈ rx.mis, R32 t ∧ 1 ≤ rx.off t ∧ rx.off t ≤ 65535) (hnd : rx.mis.Nodup)
+    (hruns : newRuns none ((sortByKey rx.last rx.mis).map rx.off) ≤ 296) (k : Nat) :
+    (∃ g ∈ sackGapBlocks rx, g.1 ≤ k ∧ k ≤ g.2) ↔ ∃ t ∈ rx.mis, rx.off t = k :=
+  sack_gaps_exact rx hmis hnd hruns k
+
+/-- and the sender reads them back as exactly those TSNs (`seen`, clipped to the highest outstanding TSN) -/
+theorem sender_reads_gaps (cum : Int) (limit : Nat) (gaps : List (Nat × Nat)) (t : Int) :
+    t ∈ (gapSeen cum limit gaps).1 ↔
+      ∃ g ∈ gaps, ∃ k, g.1 ≤ k ∧ k ≤ min g.2 limit ∧ t = (cum + (k : Int)) % 4294967296 :=
+  mem_gapSeen cum limit gaps t
+
+def demoRx : Rx := { last := 10, mis := [13, 12, 15], dups := [] }
+example : sackGapBlocks demoRx = [(2, 3), (5, 5)] := by decide
+example : (∀ t ∈ demoRx.mis, R32 t ∧ 1 ≤ demoRx.off t ∧ demoRx.off t ≤ 65535) ∧ demoRx.mis.Nodup
+    ∧ newRuns none ((sortByKey demoRx.last demoRx.mis).map demoRx.off) ≤ 296 := by
+  refine ⟨?_, by decide, by decide⟩
+  intro t ht
+  simp only [demoRx, List.mem_cons, List.not_mem_nil, or_false] at ht
+  rcases ht with rfl | rfl | rfl <;> (unfold R32; decide)
+
+/-! ## (f) liveness -/
+
+/-! ### the full statement (not proved) -/
+
+/-- two endpoints and the datagrams in flight between them -/
+structure World where
+  a : Ep
+  b : Ep
+  ab : List Bytes := []
+  ba : List Bytes := []
+  now : Int := 1024000
+  /-- history: (at endpoint A?, input, outputs) -/
+  log : List (Bool × Input × List Out) := []
+
+/-- run one input at one endpoint, route its datagrams into the network, log -/
+def World.input (w : World) (atA : Bool) (inp : Input) : World :=
+  let r := step (if atA then w.a else w.b) w.now inp
+  let sent := r.2.filterMap fun o => match o with | .tx d => some d | _ => none
+  { w with a := if atA then r.1 else w.a, b := if atA then w.b else r.1
+           ab := if atA then w.ab ++ sent else w.ab, ba := if atA then w.ba else w.ba ++ sent
+           log := w.log ++ [(atA, inp, r.2)] }
+
+def armed (e : Ep) : List String :=
+  (if e.tx.t3 then ["t3"] else []) ++ (if e.t1 then ["t1"] else []) ++ (if e.t2 then ["t2"] else [])
+    ++ (if e.rcTimer then ["reconfig"] else [])
+
+/-- the adversary: deliver / drop / duplicate ANY datagram (so also reorder), fire any armed timer, run the oldest
+task, application calls, let time pass -/
+inductive Move where
+  | deliver (toB : Bool) (i : Nat) (cookie : Bytes)
+  | drop (toB : Bool) (i : Nat)
+  | dup (toB : Bool) (i : Nat)
+  | fire (atA : Bool) (timer : String)
+  | task (atA : Bool)
+  | app (atA : Bool) (inp : Input)
+  | tick (dt : Nat)
+
+def World.move (w : World) : Move → World
+  | .deliver toB i cookie =>
+    match (if toB then w.ab else w.ba)[i]? with
+    | some d =>
+      let w := if toB then { w with ab := w.ab.eraseIdx i } else { w with ba := w.ba.eraseIdx i }
+      w.input (!toB) (.rx d cookie)
+    | none => w
+  | .drop toB i => if toB then { w with ab := w.ab.eraseIdx i } else { w with ba := w.ba.eraseIdx i }
+  | .dup toB i =>
+    match (if toB then w.ab else w.ba)[i]? with
+    | some d => if toB then { w with ab := w.ab ++ [d] } else { w with ba := w.ba ++ [d] }
+    | none => w
+  | .fire atA t => if (armed (if atA then w.a else w.b)).contains t then w.input atA (.fire t) else w
+  | .task atA => w.input atA .task
+  | .app atA inp => match inp with
+    | .create _ | .send _ _ _ | .close _ | .threshold _ _ | .start _ => w.input atA inp
+    | _ => w
+  | .tick dt => { w with now := w.now + dt }
+
+/-- the canonical fault-free continuation: run pending tasks; else deliver the oldest datagram; else fire an
+armed timer (RTO values are not modelled: any armed timer may be the earliest) -/
+def World.heal (w : World) : World :=
+  if !w.a.tasks.isEmpty then w.input true .task
+  else if !w.b.tasks.isEmpty then w.input false .task
+  else match w.ab with
+    | d :: rest => ({ w with ab := rest }).input false (.rx d [])
+    | [] => match w.ba with
+      | d :: rest => ({ w with ba := rest }).input true (.rx d [])
+      | [] => match armed w.a, armed w.b with
+        | t :: _, _ => ({ w with now := w.now + 1024 }).input true (.fire t)
+        | [], t :: _ => ({ w with now := w.now + 1024 }).input false (.fire t)
+        | [], [] => w
+
+def World.connected (w : World) : Prop := w.a.state = "connected" ∧ w.b.state = "connected"
+
+def epQuiet (e : Ep) : Prop :=
+  e.tx.sentQ = [] ∧ e.tx.outQ = [] ∧ e.dcQueue = [] ∧ e.tx.flight = 0 ∧ e.tx.forwardTsn = none ∧ e.tasks.isEmpty = true
+  ∧ ∀ c ∈ e.chans, c.buffered = 0
+
+def World.quiescent (w : World) : Prop := epQuiet w.a ∧ epQuiet w.b ∧ w.ab = [] ∧ w.ba = []
+
+/-- messages the application sent on channel index `i` of one side / messages delivered on channel index `j` -/
+def sentOn (log : List (Bool × Input × List Out)) (atA : Bool) (i : Nat) : List (Bool × Bytes) :=
+  log.filterMap fun (side, inp, outs) => match inp with
+    | .send ch isStr data =>
+      if side = atA ∧ ch = i ∧ !(outs.any fun o => match o with | .exc _ => true | _ => false) then some (isStr, data) else none
+    | _ => none
+def gotOn (log : List (Bool × Input × List Out)) (atA : Bool) (j : Nat) : List (Bool × Bytes) :=
+  log.flatMap fun (side, _, outs) => outs.filterMap fun o => match o with
+    | .evMessage ch isStr data => if side = atA ∧ ch = j then some (isStr, data) else none
+    | _ => none
+
+def reliable (c : Chan) : Prop := c.maxRetransmits = none ∧ c.maxPacketLifeTime = none
+
+/-- every message sent on a reliable channel that is open at both ends has been delivered at the other end -/
+def World.delivered (w : World) : Prop :=
+  ∀ (fromA : Bool) (i j : Nat) (c d : Chan),
+    (if fromA then w.a else w.b).chans[i]? = some c → (if fromA then w.b else w.a).chans[j]? = some d →
+    reliable c → c.id.isSome → c.id = d.id → c.ready = 1 → d.ready = 1 →
+    (gotOn w.log (!fromA) j).Perm (sentOn w.log fromA i)
+
+def World.size (w : World) : Nat :=
+  w.ab.length + w.ba.length + w.a.tx.sentQ.length + w.a.tx.outQ.length + w.a.dcQueue.length + w.a.tasks.length
+  + w.b.tx.sentQ.length + w.b.tx.outQ.length + w.b.dcQueue.length + w.b.tasks.length
+
+/-- an explicit bound on the number of steps of the continuation, in terms of the queue lengths -/
+def World.bound (w : World) : Nat := 16 * (w.size + 4) ^ 2
+
+def World.healN : Nat → World → World
+  | 0, w => w
+  | n + 1, w => World.healN n w.heal
+
+/-- **C02 at full strength** (NOT proved; see `C02_drains_partial` and the notes for what is): for every pair of
+fresh endpoints and EVERY finite history of adversarial moves (arbitrary drop / duplicate / reorder decisions on
+every datagram, timers fired whenever armed, any application traffic in both directions), if both associations
+still report themselves connected, the canonical fault-free continuation reaches within `bound` steps a state
+where nothing is outstanding or queued on either side, `bufferedAmount` is 0 on every channel, and everything
+sent on reliable channels has been delivered. -/
+def C02_drains : Prop :=
+  ∀ (tagA tagB tsnA tsnB : Nat) (hist : List Move),
+    let w0 : World := { a := Ep.init false tagA tsnA, b := Ep.init true tagB tsnB }
+    let w := hist.foldl World.move w0
+    w.connected → ∃ n, n ≤ w.bound ∧ (World.healN n w).quiescent ∧ (World.healN n w).delivered
+
+/-! ### what is proved -/
+
+/-- **`C02_drains_partial`** — for one direction of the association abstracted to the model's own sender (`Tx`) and
+receiver (`Rx`) functions joined by a lossless in-order channel (`Link`, `Link.step` = the canonical fault-free
+continuation: pending `_transmit`, else oldest DATA datagram → SACK, else oldest SACK → `_receive_sack_chunk` +
+`_transmit`, else T3):
+
+1. (no deadlock) for every sender state satisfying the invariants that are proved for ALL reachable sender
+   states (`SndInv`, see `flight_accounting` / `timer_armed`), the continuation can only come to rest
+   (`step s = s`) in a state where nothing is outstanding, queued, in flight or armed;
+2. (invariance) the sender invariants `SndInv` and the receiver invariant `RxOk` (`Link.Inv`) hold after every
+   number of steps of the continuation, so part 1 applies wherever it stops;
+3. (bounded progress) from every coherent state (sender invariants — `SndInv.run`: every reachable sender state;
+   receiver invariant `RxOk` — `receiver_invariant`: every reachable receiver state; the receiver's cumulative
+   TSN equal to or ahead of the sender's — assumed) with an empty network, if the chunk following the cumulative ack
+   survives T3 (is not abandoned: reliable channel), then within `3 + (datagrams in the T3 burst)` steps the
+   sender's cumulative ack has strictly advanced — whatever flags, miss counters, congestion window or
+   fast-recovery state the fault history left behind, and whatever holes the receiver has.
+
+Not covered (the gap to `C02_drains`): that `Coherent` holds again when the network is next empty, and that the
+network empties between epochs (these need a two-sided invariant over the datagrams in flight) — so the
+iteration "at most one epoch per outstanding chunk" is not a theorem; the receiver side of FORWARD TSN;
+`_data_channel_flush` / `bufferedAmount`; both directions at once; the endpoint glue. Those are covered by the
+trace correspondence and the oracle on the real endpoints only. -/
+theorem C02_drains_partial :
+    (∀ s : Link, SndInv { tx := s.tx, pending := s.pending } → s.step = s → s.Drained)
+    ∧ (∀ (s : Link) (n : Nat), s.Inv → (Link.run n s).Inv)
+    ∧ (∀ (s : Link) (c : SChunk) (cs : List SChunk), s.Coherent → s.toRx = [] → s.toTx = [] → s.pending = false →
+        s.tx.t3 = true → (s.tx.t3Expired s.now1000).sentQ = c :: cs → c.tsn = tsn_plus_one s.tx.lastSacked →
+        uint32_gt (Link.run (3 + (dataOf (s.tx.t3Expired s.now1000).transmit.2).length) s).tx.lastSacked
+          s.tx.lastSacked = true) :=
+  ⟨Link.stuck_drained, fun _ n h => h.run n,
+   fun s c cs hc hrx htx hp h3 hq hct => Link.epoch_progress s hc hrx htx hp h3 c cs hq hct⟩
+
+/-- the receiver half of `Link.Coherent` is not an assumption about the history: `RxOk` holds after EVERY sequence
+of arrivals of 32-bit TSNs (any loss, duplication, reordering), starting from the state INIT / INIT-ACK sets up -/
+theorem receiver_invariant (last : Int) (hl : R32 last) (arrivals : List Int) (ha : ∀ t ∈ arrivals, R32 t) :
+    RxOk (arrivals.foldl (fun r t => (markReceived r t).2) { last := last, mis := [], dups := [] }) :=
+  RxOk.arrivals _ (RxOk.init last hl) arrivals ha
+
+/-- non-vacuity of part 3: a sender with two chunks outstanding (TSN 100, 101), a receiver that has only the
+second one (hole at 100), empty network, T3 armed -/
+def demoLink : Link :=
+  { tx := (Snd.run { tx := (Ep.init false 1 100).tx } [.send demoMsg, .send demoMsg]).tx
+    rx := { last := 99, mis := [101], dups := [] } }
+
+example : demoLink.Coherent :=
+  { inv := ((show (Ep.init false 1 100).tx.Initial from ⟨rfl, rfl, rfl, rfl, by decide⟩).inv.run
+              [.send demoMsg, .send demoMsg])
+    rx := ⟨by unfold R32; decide, by intro x hx; simp [demoLink] at hx; subst hx; unfold R32; decide, by decide, by decide⟩
+    ls := by unfold R32; decide
+    ahead := ⟨0, by decide, by decide⟩ }
+
+example : demoLink.toRx = [] ∧ demoLink.toTx = [] ∧ demoLink.pending = false ∧ demoLink.tx.t3 = true
+    ∧ (demoLink.tx.t3Expired demoLink.now1000).sentQ.map (·.tsn) = [100, 101]
+    ∧ tsn_plus_one demoLink.tx.lastSacked = 100 := by decide
+
+/-- … and there the whole continuation drains: after 8 steps both chunks are acknowledged and nothing is armed -/
+example : (Link.run 8 demoLink).tx.sentQ = [] ∧ (Link.run 8 demoLink).tx.flight = 0
+    ∧ (Link.run 8 demoLink).tx.t3 = false ∧ (Link.run 8 demoLink).rx.last = 101
+    ∧ (Link.run 8 demoLink).toRx = [] ∧ (Link.run 8 demoLink).toTx = [] ∧ (Link.run 8 demoLink).pending = false := by
+  decide
+
 end Aiortc.Props.C02
